@@ -1985,7 +1985,7 @@ func ruleServerLoopShape(p *Prog, r *Out) {
 	pos := p.pos(hs.Pos())
 	c := fdeCheck{p, r, pos}
 	// refusal
-	refuse, take := false, false
+	refuse, take, ordered := false, false, false
 	closings := 0
 	var mismatch *ast.IfStmt
 	ast.Inspect(hs.Body, func(n ast.Node) bool {
@@ -2004,8 +2004,11 @@ func ruleServerLoopShape(p *Prog, r *Out) {
 				}
 			}
 		case ct == "fr.Type()==FrameHeaders":
-			inc, last := false, false
+			inc, last, high := false, false, false
 			for _, s := range ifs.Body.List {
+				if squash(p.text(s)) == "highID=fr.Stream()" {
+					high = true
+				}
 				if ids, ok := s.(*ast.IncDecStmt); ok && p.text(ids.X) == "openStreams" && ids.Tok == token.INC {
 					inc = true
 				}
@@ -2018,6 +2021,7 @@ func ruleServerLoopShape(p *Prog, r *Out) {
 			}
 			if inc || last {
 				take = inc && last
+				ordered = high
 			}
 		case strings.Contains(ct, "canCloseAfterGoAway()"):
 			if p.isConjunctionOf(ifs.Cond, "isClosing()", "canCloseAfterGoAway()") || p.isConjunctionOf(ifs.Cond, "wasClosing", "canCloseAfterGoAway()") {
@@ -2033,6 +2037,7 @@ func ruleServerLoopShape(p *Prog, r *Out) {
 		return true
 	})
 	r.check(refuse, "a refused stream is told so", pos, "writeReset(fr.Stream(), RefusedStreamError)", "a stream that is refused (limit reached, or the connection is closing) no longer gets RST_STREAM(REFUSED_STREAM): the client waits for a response that never comes, and cannot know the request is safe to retry")
+	r.check(ordered, "an accepted request moves the mark later ids are compared with", pos, "if HEADERS { ...; highID = fr.Stream() }", "accepting HEADERS on a new stream no longer records its id as the highest a request has named: a later request on a lower id, which RFC 7540 s5.1.1 makes a connection error, is accepted and run")
 	r.check(take, "accepting a request stream takes its slot and records its id", pos, "if HEADERS { openStreams++; sc.lastID = fr.Stream() }", "accepting HEADERS on a new stream no longer increments the open-stream count and records the id as the highest accepted, together: the concurrency limit drifts, or GOAWAY and the id-ordering tests work from a stale id")
 	// ... and one stands wherever a stream can leave the table: after a handler's report (abandoned or answered), at the end of the request-timeout arm, after the connection-level frames that release blocked responses, after a stream frame
 	perArm := map[string]int{}
